@@ -712,7 +712,7 @@ static inline unsigned cmb_random_bernoulli(const double p)
 {
     cmb_assert_release((p >= 0.0) && (p <= 1.0));
 
-    return (cmb_random() <= p) ? 1 : 0;
+    return (cmb_random() < p) ? 1 : 0;
 }
 
 /**
